@@ -39,7 +39,7 @@ theorem kautocorCall_ok {blk : List K} {o : OrdArg} {x : List K × K}
     · simp only [acorrCall, hi, if_false, bind, Except.bind] at h
       rw [levinsonCall_int _ _ (.inl (by omega))] at h
       exact ⟨h, rfl⟩
-  | real q => simp [acorrCall, bind, Except.bind] at h
+  | real q fl => simp [acorrCall, bind, Except.bind] at h
 
 theorem kcovarCallWith_ok {u : K → Bool} {blk : List K} {o : OrdArg} {x : List K × K}
     (h : kcovarCallWith u blk o = .ok x) :
@@ -53,7 +53,7 @@ theorem kcovarCallWith_ok {u : K → Bool} {blk : List K} {o : OrdArg} {x : List
     · simp [lagMatrixCall, hi, bind, Except.bind, kcovarOn] at h
     · simp only [lagMatrixCall, hi, if_false] at h
       exact ⟨h, rfl⟩
-  | real q =>
+  | real q fl =>
     simp only [lagMatrixCall] at h
     split at h <;> simp [bind, Except.bind] at h
 
